@@ -3,7 +3,13 @@ not parse results (writer, sorter, library histories) can be stored in replay fi
 
 
 def block(spec):
+    """A trailing dict {"line": n} in a spec sets the block's start_line (any kind)."""
     from bibtexparser import model as M
+    if isinstance(spec[-1], dict):
+        b = block(spec[:-1])
+        target = b.ignore_error_block if spec[0] in ("dupfield",) else b
+        b._start_line_in_file = spec[-1]["line"]
+        return b
     k = spec[0]
     if k == "entry":
         _, typ, key, fields = spec[:4]
